@@ -540,10 +540,33 @@ impl<'a> FnCtx<'a> {
             }
             _ => {
                 if let Some(tsize) = self.m.table {
-                    let tyi = r.below(self.m.types.len() as u64) as u32;
+                    // table slots holding an import or a later function (no cycles)
+                    let mut slots: Vec<(u32, u32)> = vec![];
+                    for (off, fs) in &self.m.elems {
+                        for (i, f) in fs.iter().enumerate() {
+                            if *f < self.m.imports.len() as u32 || *f > self.self_idx {
+                                slots.push((*off + i as u32, *f));
+                            }
+                        }
+                    }
+                    let deliberate = if !slots.is_empty() && r.chance(1, 2) { Some(*r.pick(&slots)) } else { None };
+                    let tyi = match deliberate {
+                        // a call that is meant to succeed: use the callee's own type
+                        Some((_, f)) => self.fn_tys[f as usize],
+                        None => r.below(self.m.types.len() as u64) as u32,
+                    };
                     let ty = self.m.types[tyi as usize].clone();
                     self.args_for(r, &ty, out);
-                    let idx = if r.chance(1, 8) { r.i32v() } else { r.below(tsize as u64 + 1) as i32 };
+                    let idx = match deliberate {
+                        Some((slot, _)) => slot as i32,
+                        None => {
+                            if r.chance(1, 8) {
+                                r.i32v()
+                            } else {
+                                r.below(tsize as u64 + 1) as i32
+                            }
+                        }
+                    };
                     out.push(Instr::Const32(idx));
                     out.push(Instr::CallIndirect(tyi));
                     if let Some(t) = ty.result {
@@ -625,6 +648,12 @@ pub fn gen_module(r: &mut Rng, cfg: &Cfg) -> Module {
             let off = r.below(tsize as u64) as u32;
             let n = r.below((tsize - off) as u64 + 1) as u32;
             m.elems.push((off, (0..n).map(|_| r.below((ni + nf) as u64) as u32).collect()));
+        }
+        if cfg.force_imports && ni > 0 {
+            // imports reachable through the table (later segments overwrite earlier ones)
+            let off = r.below(tsize as u64) as u32;
+            let n = (1 + r.below(ni as u64) as u32).min(tsize - off);
+            m.elems.push((off, (0..n).map(|i| i % ni).collect()));
         }
     }
     // NB: indirect calls may target any function, so recursion through the
